@@ -27,6 +27,8 @@ pub enum TruthTableFromCsvError {
         variable_count: usize,
         actual_row_count: usize,
     },
+    #[error("Row with index {row_index} repeats the input values of an earlier row")]
+    DuplicateRow { row_index: usize },
     #[error("Found no delimiter, expected one of the following characters: .,`|\\t")]
     NoDelimiterFound,
     #[error(transparent)]
@@ -47,6 +49,7 @@ impl From<TruthTableFromCsvError> for PyErr {
             e @ DuplicateVariableName { .. }
             | e @ RecordDifferentSizeThanHeader { .. }
             | e @ NoOutputColumn
+            | e @ DuplicateRow { .. }
             | e @ MismatchedRecordCountAndVariableCount { .. }
             | e @ NoDelimiterFound => PyRuntimeError::new_err(e.to_string()),
             ParsingError(e) => PyRuntimeError::new_err(e.to_string()),
